@@ -200,30 +200,37 @@ Definition enc_record (w : nat) (code : Z) (ops : list Z) : list bool :=
 Definition blk_header (w : nat) (id : Z) (nw : nat) : list bool :=
   bits_of w 1 ++ enc_vbr 8 id ++ enc_vbr 4 (Z.of_nat nw).
 
+(* position at which the body of a block starts when its header starts at pos:
+   header, padding to a 32-bit boundary, 32-bit length word *)
+Definition blk_body_start (w : nat) (pos : Z) (id : Z) (nw : nat) : Z :=
+  let p1 := pos + Z.of_nat (length (blk_header w id nw)) in
+  p1 + Z.of_nat (padlen p1) + 32.
+
+(* a block whose header starts at absolute bit position pos, given the
+   encoding `body` of its items (which start at blk_body_start) *)
+Definition enc_block (w : nat) (pos : Z) (id : Z) (nw : nat) (body : list bool) : list bool :=
+  let hdr := blk_header w id nw in
+  let p1 := pos + Z.of_nat (length hdr) in
+  let inner := body ++ bits_of nw 0 in
+  let pad2 := zeros (padlen (blk_body_start w pos id nw + Z.of_nat (length inner))) in
+  hdr ++ zeros (padlen p1) ++ bits_of 32 ((Z.of_nat (length (inner ++ pad2)) / 32) mod two32) ++ inner ++ pad2.
+
+(* items one after the other, each encoded by f at its own position *)
+Definition enc_list_with (f : Z -> item -> list bool) : list item -> Z -> list bool :=
+  fix go (l : list item) (p : Z) : list bool :=
+    match l with
+    | [] => []
+    | x :: l' => f p x ++ go l' (p + Z.of_nat (length (f p x)))
+    end.
+
 (* encoding of an item that starts at absolute bit position pos *)
-Fixpoint enc_item (w : nat) (pos : Z) (it : item) : list bool :=
+Fixpoint enc_item (w : nat) (pos : Z) (it : item) {struct it} : list bool :=
   match it with
   | Rec code ops => enc_record w code ops
-  | Blk id nw body =>
-    let hdr := blk_header w id nw in
-    let p1 := pos + Z.of_nat (length hdr) in
-    let pad1 := zeros (padlen p1) in
-    let p2 := p1 + Z.of_nat (padlen p1) + 32 in
-    let inner :=
-      (fix enc_list (p : Z) (l : list item) : list bool :=
-         match l with
-         | [] => []
-         | x :: l' => let e := enc_item nw p x in e ++ enc_list (p + Z.of_nat (length e)) l'
-         end) p2 body ++ bits_of nw 0 in
-    let pad2 := zeros (padlen (p2 + Z.of_nat (length inner))) in
-    hdr ++ pad1 ++ bits_of 32 ((Z.of_nat (length (inner ++ pad2)) / 32) mod two32) ++ inner ++ pad2
+  | Blk id nw body => enc_block w pos id nw (enc_list_with (enc_item nw) body (blk_body_start w pos id nw))
   end.
 
-Fixpoint enc_items (w : nat) (pos : Z) (l : list item) : list bool :=
-  match l with
-  | [] => []
-  | x :: l' => let e := enc_item w pos x in e ++ enc_items w (pos + Z.of_nat (length e)) l'
-  end.
+Definition enc_items (w : nat) (pos : Z) (l : list item) : list bool := enc_list_with (enc_item w) l pos.
 
 Definition magic_bits : list bool := bits_of 8 66 ++ bits_of 8 67 ++ bits_of 8 192 ++ bits_of 8 222.
 
@@ -231,7 +238,7 @@ Definition magic_bits : list bool := bits_of 8 66 ++ bits_of 8 67 ++ bits_of 8 1
 Definition enc_stream (l : list item) : list bool := magic_bits ++ enc_items 2 32 l.
 
 (* writer operations that serialize a tree (what serialize.go does with the writer) *)
-Fixpoint ops_of_item (it : item) : list wop :=
+Fixpoint ops_of_item (it : item) {struct it} : list wop :=
   match it with
   | Rec code ops => [ORecord code ops]
   | Blk id nw body =>
@@ -393,7 +400,7 @@ Definition dec_stream_fuel (fuel : nat) (bs : list bool) : res (list item) :=
   match take 32 bs with
   | None => Err EMagic 0
   | Some (m, rest) =>
-    if val_of m =? 3737273154 (* 0xDEC04342 = 'B' 'C' 0xC0 0xDE little endian *) then
+    if val_of m =? 3737142082 (* 0xDEC04342 = 'B' 'C' 0xC0 0xDE little endian *) then
       match dec_items fuel true 2 (32, rest) with
       | Ok (l, _) => Ok l
       | Err e p => Err e p
